@@ -203,6 +203,8 @@ class CHECK(Check):
         for a in qgen.assignments(c06.FEATURES, d, full_products=[('join', 'where'), ('join', 'targets'), ('wrap', 'order', 'limit'), ('join', 'order', 'limit')]):
             if c06.build(a) is not None:
                 for cat in (('names',) if self.tier == 'quick' else tuple(CATALOGS)):
+                    if cat.startswith('class_type') and sum(1 for n in c06.FEATURES if a[n]) > 2:
+                        continue
                     out.append(('model', tuple(a[n] for n in c06.FEATURES), cat))
         # a smaller slice under the other catalogs in quick
         if self.tier == 'quick':
